@@ -111,7 +111,9 @@ def run(chk, P, unit="topology-linux.c", rule="R-OUTDEF"):
                     if not e.get("#def:" + d):
                         bad.setdefault(c["id"], True)
         try:
-            peval.PathEval(P, f, env, is_effect=lambda *z: False, through_effects=True, observe=obs, maxstates=100000, track=set(env)).run()
+            peval.PathEval(P, f, env, is_effect=lambda *z: False, through_effects=True, observe=obs, maxstates=100000,
+                           track=set(env) | set(v9["n"] for v9 in f.walk() if v9["k"] == "Var" and "w" in (T[v9["t"]] if "t" in v9 else {})  # `int first = !idx;`
+                                                and not T[v9["t"]].get("ptr"))).run()
         except AnalysisBroken as ex:
             chk.broke("%s: %s not evaluable (%s)" % (rule, f.name, ex))
             continue
